@@ -215,6 +215,7 @@ func ExtractMatchingLabelSet(groupIDStr string, matchingLabels []string, include
 	if !found {
 		return groupIDStr
 	}
+	labelSetStr = strings.TrimSuffix(labelSetStr, "}")
 
 	for _, keyValuePair := range strings.Split(labelSetStr, ",") {
 		labelKey, labelVal, found := strings.Cut(keyValuePair, ":")
